@@ -137,7 +137,8 @@ theorem below_complete (s : PState) (c : Completion) (k : Bytes) : below (comple
       | ok => simp [hk]
       | err =>
         simp only
-        cases hm : Buf.get (List.take c.applied f.sorted) k with
+        generalize (if s.cfg.layer = true then 0 else c.applied) = n
+        cases hm : Buf.get (List.take n f.sorted) k with
         | none => simp
         | some v =>
           have h1 := Buf.get_some_mem hm
@@ -1441,6 +1442,717 @@ theorem tasks_cover : ∀ (splits : List Bytes) (lo key end_ k : Bytes),
         · exact Or.inl h4
         · exact Or.inr (fun hm => h4 (List.mem_cons_of_mem _ hm))
       exact tasks_cover rest hi key end_ k (le_of_not_lt hk') h2 h3 h4'
+
+/-! ## a failure stays in `errCh` until a call returns it -/
+
+theorem step_err_persists {s : PState} {sp : Spec} (op : Op) (h : Inv2 s sp) (he : s.errCh = some .err) :
+    (step s op).2 = .errFlush ∨ (step s op).1.errCh = some .err := by
+  obtain ⟨hfl, hr⟩ := h.errFl (by rw [he]; rfl)
+  cases op with
+  | set k v => right; simp only [step]; split <;> exact he
+  | del k => right; exact he
+  | get k => right; exact he
+  | batchGet ks => right; simp only [step]; rw [batchGet_fields]; exact he
+  | flush force mem late =>
+    simp only [step]
+    rcases doFlush_cases s force mem late with hd | ⟨_, hd⟩ | ⟨_, _, hd⟩ | ⟨hf, _, _⟩
+    · right; rw [hd]; exact he
+    · right; rw [hd]; exact he
+    · left; rw [hd, await_of_not_running late (by exact hr)]
+      unfold flushAfterWait failWith; simp [he]
+    · rw [hf] at hfl; cases hfl
+  | flushDone c => right; simp only [step]; simp [hr]; exact he
+  | flushWait late =>
+    simp only [step]
+    rcases doFlushWait_cases s late with ⟨_, hd⟩ | ⟨hf, _⟩
+    · left; rw [hd, await_of_not_running late hr]
+      unfold waitAfter failWith; simp [he]
+    · rw [hf] at hfl; cases hfl
+  | stage => right; exact he
+  | release => right; exact he
+  | cleanup => right; simp only [step]; split <;> exact he
+
+theorem err_never_lost {s : PState} {sp : Spec} (ops : List Op) (h : Inv2 s sp) (he : s.errCh = some .err) :
+    .errFlush ∈ runOuts s ops ∨ (run s ops).errCh = some .err := by
+  induction ops generalizing s sp with
+  | nil => right; exact he
+  | cons op ops ih =>
+    unfold runOuts run
+    rcases step_err_persists op h he with h1 | h1
+    · left; rw [h1]; simp
+    · rcases ih (inv2_step op h) h1 with h2 | h2
+      · left; exact List.mem_cons_of_mem _ h2
+      · right; exact h2
+
+/-! ## callback layer: while the TTL manager has not been started the primary holds no lock in the store -/
+
+structure Inv3 (s : PState) : Prop where
+  unlocked : s.ttl = .uninit → s.store.get s.primary = none
+  noPrimary : s.primary = [] → ∀ k v, s.store.get k = some v → k = []
+  batch : s.running = true → s.primary = [] → ∀ f, s.flushing = some f → ∀ k v, f.get k = some v → k = []
+
+theorem inv3_congr {s s' : PState} (h : Inv3 s) (h1 : s'.ttl = s.ttl) (h2 : s'.primary = s.primary)
+    (h3 : s'.store = s.store) (h4 : s'.flushing = s.flushing) (h5 : s'.running = s.running) : Inv3 s' :=
+  ⟨by rw [h1, h2, h3]; exact h.unlocked, by rw [h2, h3]; exact h.noPrimary, by rw [h2, h4, h5]; exact h.batch⟩
+
+theorem Buf.get_none_of_not_key {b : Buf} {k : Bytes} (h : b.keys.contains k = false) : b.get k = none := by
+  cases hg : b.get k with
+  | none => rfl
+  | some v =>
+    have hm := Buf.get_some_mem hg
+    have : k ∈ b.keys := List.mem_map.mpr ⟨(k, v), hm, rfl⟩
+    have : b.keys.contains k = true := List.contains_iff_mem.mpr this
+    rw [h] at this; cases this
+
+theorem inv3_complete {s : PState} (c : Completion) (hl : s.cfg.layer = true) (h : Inv3 s) (hr : s.running = true) :
+    Inv3 (complete s c) := by
+  cases hf : s.flushing with
+  | none =>
+    have : complete s c = s := by unfold complete; simp [hf]
+    rw [this]; exact h
+  | some f =>
+    have hrun : (complete s c).running = false := (complete_of_flushing c hf).1
+    have hprim : (complete s c).primary = s.primary := by unfold complete; simp [hf]
+    cases hres : c.res with
+    | ok =>
+      have hstore : (complete s c).store = s.store.apply f := (complete_of_flushing c hf).2.2 hres
+      have httl : (complete s c).ttl = if (s.ttl == .uninit && f.keys.contains s.primary) = true then .running else s.ttl := by
+        unfold complete; simp [hf, hl, hres]
+      refine ⟨?_, ?_, ?_⟩
+      · intro hu
+        by_cases hc : (s.ttl == .uninit && f.keys.contains s.primary) = true
+        · rw [httl, if_pos hc] at hu; cases hu
+        · rw [httl, if_neg hc] at hu
+          have hnc : f.keys.contains s.primary = false := by
+            cases hcc : f.keys.contains s.primary with
+            | false => rfl
+            | true => exact absurd (by rw [hu, hcc]; rfl) hc
+          rw [hprim, hstore, Buf.get_apply, Buf.get_none_of_not_key hnc, h.unlocked hu]; rfl
+      · intro hp k v hk
+        rw [hprim] at hp
+        rw [hstore, Buf.get_apply] at hk
+        cases hfk : f.get k with
+        | some w => exact h.batch hr hp f hf k w hfk
+        | none => rw [hfk] at hk; exact h.noPrimary hp k v hk
+      · intro hr'; rw [hrun] at hr'; cases hr'
+    | err =>
+      have hstore : (complete s c).store = s.store := by unfold complete; simp [hf, hl, hres, Buf.apply]
+      have httl : (complete s c).ttl = if (s.ttl == .running) = true then .closed else s.ttl := by
+        unfold complete; simp [hf, hl, hres]
+      refine ⟨?_, ?_, ?_⟩
+      · intro hu
+        by_cases hc : (s.ttl == .running) = true
+        · rw [httl, if_pos hc] at hu; cases hu
+        · rw [httl, if_neg hc] at hu
+          rw [hprim, hstore]; exact h.unlocked hu
+      · intro hp; rw [hprim] at hp; rw [hstore]; exact h.noPrimary hp
+      · intro hr'; rw [hrun] at hr'; cases hr'
+
+theorem find_getD_empty {ks : List Bytes} (h : (ks.find? (fun k => !k.isEmpty)).getD [] = []) : ∀ k ∈ ks, k = [] := by
+  cases hf : ks.find? (fun k => !k.isEmpty) with
+  | none =>
+    intro k hk
+    have := List.find?_eq_none.mp hf k hk
+    simpa using this
+  | some x =>
+    rw [hf] at h
+    have hx := List.find?_some hf
+    simp at h; subst h; simp at hx
+
+theorem inv3_start {s : PState} (hl : s.cfg.layer = true) (h : Inv3 s) : Inv3 (start s).1 := by
+  unfold start
+  by_cases h2 : s.ttl = .closed
+  · simp only [hl, h2, if_true, beq_self_eq_true]
+    exact ⟨(by intro hu; cases hu), h.noPrimary, (by intro hr'; cases hr')⟩
+  · have h2' : (s.ttl == TTL.closed) = false := by simpa using h2
+    by_cases h3 : s.mbuf.isEmpty = true
+    · simp only [hl, h2', h3, if_true, Bool.false_eq_true, if_false]
+      exact ⟨h.unlocked, h.noPrimary, (by intro hr'; cases hr')⟩
+    · simp only [hl, h2', h3, if_true, Bool.false_eq_true, if_false]
+      by_cases hp : s.primary.isEmpty = true
+      · have hp' : s.primary = [] := by simpa using hp
+        simp only [hp, if_true]
+        refine ⟨?_, ?_, ?_⟩
+        · intro hu
+          cases hg : s.store.get ((s.mbuf.sorted.keys.find? fun k => !k.isEmpty).getD []) with
+          | none => rfl
+          | some v =>
+            have hk0 := h.noPrimary hp' _ v hg
+            have hun := h.unlocked hu
+            rw [hp'] at hun
+            rw [hk0, hun] at hg; cases hg
+        · intro _; exact h.noPrimary hp'
+        · intro _ hfirst f hf k v hk
+          injection hf with hf; subst hf
+          have hall := find_getD_empty hfirst
+          have hm : (k, v) ∈ s.mbuf.sorted := mem_sorted.mpr (Buf.get_some_mem hk)
+          exact hall k (List.mem_map.mpr ⟨(k, v), hm, rfl⟩)
+      · have hp' : s.primary ≠ [] := by simpa using hp
+        simp only [hp]
+        exact ⟨h.unlocked, h.noPrimary, (by intro _ hpe; exact absurd hpe hp')⟩
+
+theorem inv3_await {s : PState} (c : Completion) (hl : s.cfg.layer = true) (h : Inv3 s) : Inv3 (await s c) := by
+  unfold await
+  by_cases hr : s.running = true
+  · simp only [hr, if_true]; exact inv3_complete c hl h hr
+  · simp only [hr]; exact h
+
+theorem inv3_clear {s : PState} (h : Inv3 s) (fl : Bool) (le : Option Reported) :
+    Inv3 { s with flushing := none, errCh := none, failed := fl, lastErr := le } :=
+  ⟨h.unlocked, h.noPrimary, by intro _ _ f hf; cases hf⟩
+
+theorem inv3_step {s : PState} (op : Op) (hl : s.cfg.layer = true) (h : Inv3 s) : Inv3 (step s op).1 := by
+  cases op with
+  | set k v => simp only [step]; split
+               · exact h
+               · exact inv3_congr h rfl rfl rfl rfl rfl
+  | del k => exact inv3_congr h rfl rfl rfl rfl rfl
+  | get k => exact h
+  | batchGet ks => simp only [step]; rw [batchGet_fields]; exact inv3_congr h rfl rfl rfl rfl rfl
+  | flush force mem late =>
+    simp only [step]
+    have h1 : Inv3 { s with cache := none } := inv3_congr h rfl rfl rfl rfl rfl
+    rcases doFlush_cases s force mem late with hd | ⟨_, hd⟩ | ⟨_, _, hd⟩ | ⟨_, _, hd⟩
+    · rw [hd]; exact h1
+    · rw [hd]; exact h1
+    · rw [hd]
+      have h2 := inv3_await late (s := { s with cache := none }) hl h1
+      rcases flushAfterWait_cases (await { s with cache := none } late) with ⟨_, he⟩ | ⟨_, he⟩
+      · rw [he]; exact inv3_clear h2 true _
+      · rw [he]; exact inv3_start (by rw [await_cfg]; exact hl) h2
+    · rw [hd]; exact inv3_start hl h1
+  | flushDone c =>
+    simp only [step]
+    by_cases hr : s.running = true
+    · simp only [hr, if_true]; exact inv3_complete c hl h hr
+    · simp only [hr]; exact h
+  | flushWait late =>
+    simp only [step]
+    rcases doFlushWait_cases s late with ⟨_, hd⟩ | ⟨_, hd⟩
+    · rw [hd]
+      have h2 := inv3_await late hl h
+      rcases waitAfter_cases (await s late) with ⟨_, he⟩ | ⟨_, he⟩
+      · rw [he]; exact inv3_clear h2 true _
+      · rw [he]; exact inv3_clear h2 _ _
+    · rw [hd]; exact h
+  | stage => exact inv3_congr h rfl rfl rfl rfl rfl
+  | release => exact inv3_congr h rfl rfl rfl rfl rfl
+  | cleanup => simp only [step]; split <;> exact inv3_congr h rfl rfl rfl rfl rfl
+
+theorem inv3_run (s : PState) (ops : List Op) (hl : s.cfg.layer = true) (h : Inv3 s) : Inv3 (run s ops) := by
+  induction ops generalizing s with
+  | nil => exact h
+  | cons op ops ih => unfold run; exact ih _ (by rw [step_cfg]; exact hl) (inv3_step op hl h)
+
+theorem inv3_init (cfg : Cfg) : Inv3 (init cfg) :=
+  ⟨fun _ => rfl, fun _ k v hk => (by cases hk), fun hr => (by cases hr)⟩
+
+theorem run_append (s : PState) (a b : List Op) : run s (a ++ b) = run (run s a) b := by
+  induction a generalizing s with
+  | nil => rfl
+  | cons op a ih => simp only [List.cons_append, run]; exact ih _
+
+theorem complete_ttl_started {s : PState} (c : Completion) (h : s.ttl ≠ .uninit) : (complete s c).ttl ≠ .uninit := by
+  unfold complete
+  split
+  · exact h
+  · simp only
+    split
+    · cases hr : c.res with
+      | ok =>
+        simp only
+        have : (s.ttl == TTL.uninit) = false := by simpa using h
+        simp [this]; exact h
+      | err =>
+        simp only
+        split
+        · intro hc; cases hc
+        · exact h
+    · exact h
+
+/-- a failing flush function closes the TTL manager exactly when it had been started -/
+theorem complete_err_closed_iff {s : PState} {f : Buf} (c : Completion) (hl : s.cfg.layer = true)
+    (hf : s.flushing = some f) (hc : c.res = .err) : (complete s c).ttl = .closed ↔ s.ttl ≠ .uninit := by
+  unfold complete
+  simp only [hf, hl, hc, if_true]
+  cases s.ttl <;> simp
+
+/-- the successful flush of the batch that holds the primary starts the TTL manager -/
+theorem complete_ok_starts {s : PState} {f : Buf} (c : Completion) (hl : s.cfg.layer = true)
+    (hf : s.flushing = some f) (hc : c.res = .ok) (hp : f.keys.contains s.primary = true) :
+    (complete s c).ttl ≠ .uninit := by
+  unfold complete
+  simp only [hf, hl, hc, if_true, hp, Bool.and_true]
+  cases s.ttl <;> simp
+
+theorem await_ttl_started {s : PState} (c : Completion) (h : s.ttl ≠ .uninit) : (await s c).ttl ≠ .uninit := by
+  unfold await; split
+  · exact complete_ttl_started c h
+  · exact h
+
+theorem step_ttl_started (s : PState) (op : Op) (h : s.ttl ≠ .uninit) : (step s op).1.ttl ≠ .uninit := by
+  cases op with
+  | set k v => simp only [step]; split <;> exact h
+  | del k => exact h
+  | get k => exact h
+  | batchGet ks => simp only [step]; rw [batchGet_fields]; exact h
+  | flush force mem late =>
+    simp only [step]
+    rcases doFlush_cases s force mem late with hd | ⟨_, hd⟩ | ⟨_, _, hd⟩ | ⟨_, _, hd⟩
+    · rw [hd]; exact h
+    · rw [hd]; exact h
+    · rw [hd]
+      have h2 : (await { s with cache := none } late).ttl ≠ .uninit := await_ttl_started late h
+      rcases flushAfterWait_cases (await { s with cache := none } late) with ⟨_, he⟩ | ⟨_, he⟩
+      · rw [he]; exact h2
+      · rw [he, (start_cases _).1]; exact h2
+    · rw [hd, (start_cases _).1]; exact h
+  | flushDone c => simp only [step]; split
+                   · exact complete_ttl_started c h
+                   · exact h
+  | flushWait late =>
+    simp only [step]
+    have h2 : (await s late).ttl ≠ .uninit := await_ttl_started late h
+    rcases doFlushWait_cases s late with ⟨_, hd⟩ | ⟨_, hd⟩
+    · rw [hd]
+      rcases waitAfter_cases (await s late) with ⟨_, he⟩ | ⟨_, he⟩
+      · rw [he]; exact h2
+      · rw [he]; exact h2
+    · rw [hd]; exact h
+  | stage => exact h
+  | release => exact h
+  | cleanup => simp only [step]; split <;> exact h
+
+theorem run_ttl_started (s : PState) (ops : List Op) (h : s.ttl ≠ .uninit) : (run s ops).ttl ≠ .uninit := by
+  induction ops generalizing s with
+  | nil => exact h
+  | cons op ops ih => unfold run; exact ih _ (step_ttl_started s op h)
+
+/-! ## the store tier holds, key by key, the newest flushed generation -/
+
+structure Inv4 (s : PState) : Prop where
+  head : s.running = true → s.flushing = s.hist.head?.map (·.2)
+  newest : s.failed = false → s.errCh ≠ some .err → ∀ k, s.store.get k = newestFlushed s k
+
+theorem inv4_congr {s s' : PState} (h : Inv4 s) (h1 : s'.running = s.running) (h2 : s'.flushing = s.flushing)
+    (h3 : s'.hist = s.hist) (h4 : s'.failed = s.failed) (h5 : s'.errCh = s.errCh) (h6 : s'.store = s.store) : Inv4 s' :=
+  ⟨by rw [h1, h2, h3]; exact h.head,
+   by unfold newestFlushed; rw [h4, h5, h6, h1, h3]; exact h.newest⟩
+
+theorem inv4_start {s : PState} (h : Inv4 s) (hr : s.running = false) (he : s.errCh ≠ some .err) : Inv4 (start s).1 := by
+  obtain ⟨hf, _, _, hstore, _, hfail, _, _, _, hh, _, _⟩ := start_fields s
+  obtain ⟨_, hc, _⟩ := start_cases s
+  refine ⟨?_, ?_⟩
+  · intro _; rw [hf, hh]; rfl
+  · intro hnf hne k
+    rw [hfail] at hnf
+    have hold := h.newest hnf he k
+    unfold newestFlushed at hold ⊢
+    simp only [hr, Bool.false_eq_true, if_false] at hold
+    rw [hstore, hh]
+    rcases hc with ⟨h1, _, _⟩ | ⟨h1, _, _⟩
+    · simp only [h1, if_true, List.tail_cons]; exact hold
+    · simp only [h1, Bool.false_eq_true, if_false, List.map_cons, List.findSome?_cons]
+      -- the flush function returned at once: either with an error (excluded by `hne`) or because the buffer is empty
+      cases hm : s.mbuf.get k with
+      | none => simp only; exact hold
+      | some v =>
+        exfalso
+        have := (start_fields s).2.2.2.2.2.2.2.1
+        rcases (start_cases s).2.1 with ⟨h1', _, _⟩ | _
+        · rw [h1] at h1'; cases h1'
+        · cases hec : (start s).1.errCh with
+          | none =>
+            have := (start_cases s).2.1
+            rcases this with ⟨h1', _, _⟩ | ⟨_, h2', _⟩
+            · rw [h1] at h1'; cases h1'
+            · rw [hec] at h2'; cases h2'
+          | some r =>
+            cases r with
+            | err => exact hne hec
+            | ok => rw [this hec] at hm; simp at hm
+
+theorem inv4_complete {s : PState} {sp : Spec} (c : Completion) (h : Inv4 s) (h2 : Inv2 s sp) (hr : s.running = true) :
+    Inv4 (complete s c) := by
+  have hfs := h2.runFl hr
+  cases hf : s.flushing with
+  | none => simp [hf] at hfs
+  | some f =>
+    obtain ⟨h1, hech, hst⟩ := complete_of_flushing c hf
+    refine ⟨(by intro hr'; rw [h1] at hr'; cases hr'), ?_⟩
+    intro hnf hne k
+    rw [complete_failed] at hnf
+    have hok : c.res = .ok := by
+      cases hc : c.res with
+      | ok => rfl
+      | err => rw [hech, hc] at hne; exact absurd rfl hne
+    have herr : s.errCh ≠ some .err := by
+      intro he
+      have := (h2.errFl (by rw [he]; rfl)).2
+      rw [hr] at this; cases this
+    have hold := h.newest hnf herr k
+    have hhead := h.head hr
+    rw [hf] at hhead
+    unfold newestFlushed at hold ⊢
+    simp only [hr, if_true] at hold
+    rw [h1, complete_hist, hst hok, Buf.get_apply]
+    simp only [Bool.false_eq_true, if_false]
+    cases hh : s.hist with
+    | nil => rw [hh] at hhead; simp at hhead
+    | cons x tl =>
+      rw [hh] at hhead hold
+      simp only [List.head?_cons, Option.map_some, Option.some.injEq] at hhead
+      simp only [List.tail_cons] at hold
+      simp only [List.map_cons, List.findSome?_cons, ← hhead]
+      cases hfk : f.get k with
+      | some v => simp
+      | none => simp only [orE_none]; exact hold
+
+theorem inv4_await {s : PState} {sp : Spec} (c : Completion) (h : Inv4 s) (h2 : Inv2 s sp) : Inv4 (await s c) := by
+  unfold await
+  by_cases hr : s.running = true
+  · simp only [hr, if_true]; exact inv4_complete c h h2 hr
+  · simp only [hr]; exact h
+
+theorem inv4_clear {s : PState} (h : Inv4 s) (hr : s.running = false) (he : s.errCh ≠ some .err) (le : Option Reported) :
+    Inv4 { s with flushing := none, errCh := none, lastErr := le } := by
+  refine ⟨(by intro hr'; simp only at hr'; rw [hr] at hr'; cases hr'), ?_⟩
+  intro hnf _ k
+  exact h.newest hnf he k
+
+theorem inv4_failWith {s : PState} (hr : s.running = false) : Inv4 (failWith s).1 := by
+  unfold failWith
+  exact ⟨(by intro hr'; simp only at hr'; rw [hr] at hr'; cases hr'), (by intro hnf; cases hnf)⟩
+
+theorem inv4_step {s : PState} {sp : Spec} (op : Op) (h : Inv4 s) (h2 : Inv2 s sp) : Inv4 (step s op).1 := by
+  cases op with
+  | set k v => simp only [step]; split
+               · exact h
+               · exact inv4_congr h rfl rfl rfl rfl rfl rfl
+  | del k => exact inv4_congr h rfl rfl rfl rfl rfl rfl
+  | get k => exact h
+  | batchGet ks => simp only [step]; rw [batchGet_fields]; exact inv4_congr h rfl rfl rfl rfl rfl rfl
+  | flush force mem late =>
+    simp only [step]
+    have h1 : Inv4 { s with cache := none } := inv4_congr h rfl rfl rfl rfl rfl rfl
+    have h21 := inv2_cache h2 none
+    rcases doFlush_cases s force mem late with hd | ⟨_, hd⟩ | ⟨hf, _, hd⟩ | ⟨hf, _, hd⟩
+    · rw [hd]; exact h1
+    · rw [hd]; exact h1
+    · rw [hd]
+      have h3 := inv4_await late h1 h21
+      have hnr : (await { s with cache := none } late).running = false := await_not_running late hf
+      rcases flushAfterWait_cases (await { s with cache := none } late) with ⟨_, he⟩ | ⟨hne, he⟩
+      · rw [he]; exact inv4_failWith hnr
+      · rw [he]; exact inv4_start h3 hnr hne
+    · rw [hd]
+      have hnr : s.running = false := by
+        cases hr : s.running with
+        | false => rfl
+        | true => have := h2.runFl hr; rw [hf] at this; cases this
+      have hne : s.errCh ≠ some .err := by
+        intro he
+        have := (h2.errFl (by rw [he]; rfl)).1
+        rw [hf] at this; cases this
+      exact inv4_start h1 hnr hne
+  | flushDone c =>
+    simp only [step]
+    by_cases hr : s.running = true
+    · simp only [hr, if_true]; exact inv4_complete c h h2 hr
+    · simp only [hr]; exact h
+  | flushWait late =>
+    simp only [step]
+    rcases doFlushWait_cases s late with ⟨hf, hd⟩ | ⟨_, hd⟩
+    · rw [hd]
+      have h3 := inv4_await late h h2
+      have hnr := await_not_running (s := s) late hf
+      rcases waitAfter_cases (await s late) with ⟨_, he⟩ | ⟨hne, he⟩
+      · rw [he]; exact inv4_failWith hnr
+      · rw [he]; exact inv4_clear h3 hnr hne _
+    · rw [hd]; exact h
+  | stage => exact inv4_congr h rfl rfl rfl rfl rfl rfl
+  | release => exact inv4_congr h rfl rfl rfl rfl rfl rfl
+  | cleanup => simp only [step]; split <;> exact inv4_congr h rfl rfl rfl rfl rfl rfl
+
+theorem inv4_init (cfg : Cfg) : Inv4 (init cfg) :=
+  ⟨fun hr => (by cases hr), fun _ _ _ => rfl⟩
+
+theorem inv4_run {s : PState} {sp : Spec} (ops : List Op) (h : Inv4 s) (h2 : Inv2 s sp) :
+    Inv4 (runBoth (s, sp) ops).1 := by
+  induction ops generalizing s sp with
+  | nil => exact h
+  | cons op ops ih => unfold runBoth stepBoth; exact ih (inv4_step op h h2) (inv2_step op h2)
+
+/-! ## thresholds -/
+
+theorem needFlush_false {cfg : Cfg} {mem len : Nat} {fl : Bool} (h : needFlush cfg mem len fl = false) :
+    mem < cfg.minSize ∨ mem < cfg.forceSize := by
+  unfold needFlush at h
+  by_cases h1 : (decide (mem < cfg.minSize) || (decide (len < cfg.minKeys) && decide (mem < cfg.forceSize))) = true
+  · simp only [Bool.or_eq_true, Bool.and_eq_true, decide_eq_true_eq] at h1
+    rcases h1 with h1 | ⟨_, h1⟩
+    · exact Or.inl h1
+    · exact Or.inr h1
+  · simp only [h1, Bool.false_eq_true, if_false] at h
+    by_cases h2 : (fl && decide (mem < cfg.forceSize)) = true
+    · simp only [Bool.and_eq_true, decide_eq_true_eq] at h2; exact Or.inr h2.2
+    · simp [h2] at h
+
+theorem needFlush_above {cfg : Cfg} {mem len : Nat} {fl : Bool} (h1 : cfg.minSize ≤ mem) (h2 : cfg.forceSize ≤ mem) :
+    needFlush cfg mem len fl = true := by
+  cases h : needFlush cfg mem len fl with
+  | true => rfl
+  | false => rcases needFlush_false h with h3 | h3 <;> omega
+
+theorem doFlush_notFlushed {s : PState} {force : Bool} {mem : Nat} {late : Completion}
+    (h : (doFlush s force mem late).2 = .notFlushed) :
+    force = false ∧ needFlush s.cfg mem s.mbuf.length s.running = false := by
+  unfold doFlush at h
+  simp only at h
+  by_cases hst : (!s.stages.isEmpty) = true
+  · simp [hst] at h
+  · simp only [hst, Bool.false_eq_true, if_false] at h
+    by_cases hn : (!force && !needFlush s.cfg mem s.mbuf.length s.running) = true
+    · simp only [Bool.and_eq_true, Bool.not_eq_true'] at hn; exact hn
+    · simp only [hn, Bool.false_eq_true, if_false] at h
+      exfalso
+      by_cases hf : s.flushing.isSome = true
+      · simp only [hf, if_true] at h
+        rcases flushAfterWait_cases (await { s with cache := none } late) with ⟨_, he⟩ | ⟨_, he⟩
+        · rw [he] at h; unfold failWith at h; cases h
+        · rw [he] at h
+          obtain ⟨rpc, ho⟩ := (start_fields (await { s with cache := none } late)).2.2.2.2.2.2.2.2.2.2.2
+          rw [ho] at h; cases h
+      · simp only [hf, Bool.false_eq_true, if_false] at h
+        obtain ⟨rpc, ho⟩ := (start_fields { s with cache := none }).2.2.2.2.2.2.2.2.2.2.2
+        rw [ho] at h; cases h
+
+theorem doFlush_flushed_empties {s : PState} {force : Bool} {mem : Nat} {late : Completion} {g : Nat} {b : Buf} {rpc : Bool}
+    (h : (doFlush s force mem late).2 = .flushed g b rpc) : (doFlush s force mem late).1.mbuf = [] := by
+  rcases doFlush_cases s force mem late with hd | ⟨_, hd⟩ | ⟨_, _, hd⟩ | ⟨_, _, hd⟩
+  · rw [hd] at h; cases h
+  · rw [hd] at h; cases h
+  · rcases flushAfterWait_cases (await { s with cache := none } late) with ⟨_, he⟩ | ⟨_, he⟩
+    · rw [hd, he] at h; unfold failWith at h; cases h
+    · rw [hd, he]; exact (start_fields _).2.1
+  · rw [hd]; exact (start_fields _).2.1
+
+/-! ## the bounds kept by the callback describe the keys it has sent (whole op sequences) -/
+
+structure Inv5 (s : PState) : Prop where
+  mbufKeys : ∀ e ∈ s.mbuf, e.1 ≠ []
+  stageKeys : ∀ m ∈ s.stages, ∀ e ∈ m, e.1 ≠ []
+  lockKeysNe : ∀ k ∈ s.lockKeys, k ≠ []
+  bounds : boundsInv s.lockKeys (s.pStart, s.pEnd)
+
+theorem inv5_congr {s s' : PState} (h : Inv5 s) (h1 : s'.mbuf = s.mbuf) (h2 : s'.stages = s.stages)
+    (h3 : s'.lockKeys = s.lockKeys) (h4 : s'.pStart = s.pStart) (h5 : s'.pEnd = s.pEnd) : Inv5 s' :=
+  ⟨by rw [h1]; exact h.mbufKeys, by rw [h2]; exact h.stageKeys, by rw [h3]; exact h.lockKeysNe,
+   by rw [h3, h4, h5]; exact h.bounds⟩
+
+theorem boundsInv_perm {K K' : List Bytes} {p : Bytes × Bytes} (hm : ∀ k, k ∈ K ↔ k ∈ K') (h : boundsInv K p) :
+    boundsInv K' p := by
+  rcases h with ⟨h0, hp⟩ | ⟨h1, g, hg, hpe, h3⟩
+  · left
+    refine ⟨?_, hp⟩
+    apply List.eq_nil_iff_forall_not_mem.mpr
+    intro k hk; rw [← hm k, h0] at hk; cases hk
+  · right
+    exact ⟨(hm _).mp h1, g, (hm _).mp hg, hpe, fun k hk => h3 k ((hm k).mpr hk)⟩
+
+@[simp] theorem complete_lockKeys (s c) : (complete s c).lockKeys = s.lockKeys := by unfold complete; split <;> rfl
+@[simp] theorem complete_pStart (s c) : (complete s c).pStart = s.pStart := by unfold complete; split <;> rfl
+@[simp] theorem complete_pEnd (s c) : (complete s c).pEnd = s.pEnd := by unfold complete; split <;> rfl
+
+theorem inv5_await {s : PState} (c : Completion) (h : Inv5 s) : Inv5 (await s c) := by
+  unfold await; split
+  · exact inv5_congr h (by simp) (by simp) (by simp) (by simp) (by simp)
+  · exact h
+
+theorem inv5_start {s : PState} (h : Inv5 s) : Inv5 (start s).1 := by
+  unfold start
+  by_cases h1 : s.cfg.layer = true
+  · by_cases h2 : s.ttl = .closed
+    · simp only [h1, h2, if_true, beq_self_eq_true]
+      exact ⟨(by intro e he; cases he), h.stageKeys, h.lockKeysNe, h.bounds⟩
+    · have h2' : (s.ttl == TTL.closed) = false := by simpa using h2
+      by_cases h3 : s.mbuf.isEmpty = true
+      · simp only [h1, h2', h3, if_true, Bool.false_eq_true, if_false]
+        exact ⟨(by intro e he; cases he), h.stageKeys, h.lockKeysNe, h.bounds⟩
+      · simp only [h1, h2', h3, if_true, Bool.false_eq_true, if_false]
+        have hks : ∀ k ∈ s.mbuf.keys, k ≠ [] := by
+          intro k hk
+          obtain ⟨e, he, hek⟩ := List.mem_map.mp hk
+          rw [← hek]; exact h.mbufKeys e he
+        have hne : s.mbuf.keys ≠ [] := by
+          intro hnil
+          have : s.mbuf = [] := by simpa [Buf.keys] using hnil
+          rw [this] at h3; simp at h3
+        refine ⟨(by intro e he; cases he), h.stageKeys, ?_, ?_⟩
+        · intro k hk
+          rcases List.mem_append.mp hk with hk | hk
+          · exact hks k hk
+          · exact h.lockKeysNe k hk
+        · exact boundsInv_perm (fun k => by simp [List.mem_append, or_comm])
+            (updBounds_inv h.lockKeysNe h.bounds hne)
+  · simp only [h1]
+    exact ⟨(by intro e he; cases he), h.stageKeys, h.lockKeysNe, h.bounds⟩
+
+theorem mem_erase {b : Buf} {k : Bytes} {e : Bytes × Bytes} (h : e ∈ b.erase k) : e ∈ b :=
+  (List.mem_filter.mp h).1
+
+theorem inv5_write {s : PState} (k v : Bytes) (hk : k ≠ []) (h : Inv5 s) : Inv5 { s with mbuf := s.mbuf.put k v } :=
+  ⟨by
+    intro e he
+    rcases List.mem_cons.mp he with h1 | h1
+    · rw [h1]; exact hk
+    · exact h.mbufKeys e (mem_erase h1),
+   h.stageKeys, h.lockKeysNe, h.bounds⟩
+
+theorem inv5_step {s : PState} (op : Op) (hok : op.keyOk = true) (h : Inv5 s) : Inv5 (step s op).1 := by
+  cases op with
+  | set k v =>
+    simp only [step]; split
+    · exact h
+    · exact inv5_write k v (by simpa [Op.keyOk] using hok) h
+  | del k => exact inv5_write k [] (by simpa [Op.keyOk] using hok) h
+  | get k => exact h
+  | batchGet ks => simp only [step]; rw [batchGet_fields]; exact inv5_congr h rfl rfl rfl rfl rfl
+  | flush force mem late =>
+    simp only [step]
+    have h1 : Inv5 { s with cache := none } := inv5_congr h rfl rfl rfl rfl rfl
+    rcases doFlush_cases s force mem late with hd | ⟨_, hd⟩ | ⟨_, _, hd⟩ | ⟨_, _, hd⟩
+    · rw [hd]; exact h1
+    · rw [hd]; exact h1
+    · rw [hd]
+      have h2 := inv5_await late h1
+      rcases flushAfterWait_cases (await { s with cache := none } late) with ⟨_, he⟩ | ⟨_, he⟩
+      · rw [he]; exact inv5_congr h2 rfl rfl rfl rfl rfl
+      · rw [he]; exact inv5_start h2
+    · rw [hd]; exact inv5_start h1
+  | flushDone c =>
+    simp only [step]; split
+    · exact inv5_congr h (by simp) (by simp) (by simp) (by simp) (by simp)
+    · exact h
+  | flushWait late =>
+    simp only [step]
+    rcases doFlushWait_cases s late with ⟨_, hd⟩ | ⟨_, hd⟩
+    · rw [hd]
+      have h2 := inv5_await late h
+      rcases waitAfter_cases (await s late) with ⟨_, he⟩ | ⟨_, he⟩
+      · rw [he]; exact inv5_congr h2 rfl rfl rfl rfl rfl
+      · rw [he]; exact inv5_congr h2 rfl rfl rfl rfl rfl
+    · rw [hd]; exact h
+  | stage =>
+    exact ⟨h.mbufKeys, (by
+      intro m hm
+      rcases List.mem_cons.mp hm with h1 | h1
+      · rw [h1]; exact h.mbufKeys
+      · exact h.stageKeys m h1), h.lockKeysNe, h.bounds⟩
+  | release => exact ⟨h.mbufKeys, fun m hm => h.stageKeys m (List.mem_of_mem_tail hm), h.lockKeysNe, h.bounds⟩
+  | cleanup =>
+    simp only [step]
+    cases hs : s.stages with
+    | nil => exact inv5_congr h rfl (by simp [hs]) rfl rfl rfl
+    | cons m rest =>
+      exact ⟨h.stageKeys m (by rw [hs]; simp), fun m' hm' => h.stageKeys m' (by rw [hs]; exact List.mem_cons_of_mem _ hm'),
+        h.lockKeysNe, h.bounds⟩
+
+theorem inv5_run (s : PState) (ops : List Op) (hok : ∀ op ∈ ops, op.keyOk = true) (h : Inv5 s) : Inv5 (run s ops) := by
+  induction ops generalizing s with
+  | nil => exact h
+  | cons op ops ih =>
+    unfold run
+    exact ih _ (fun o ho => hok o (List.mem_cons_of_mem _ ho)) (inv5_step op (hok op (by simp)) h)
+
+theorem inv5_init (cfg : Cfg) : Inv5 (init cfg) :=
+  ⟨fun e he => (by cases he), fun m hm => (by cases hm), fun k hk => (by cases hk), Or.inl ⟨rfl, rfl⟩⟩
+
+/-! ## the result map of BatchGet -/
+
+theorem bgLocal_result (s : PState) : ∀ (ks : List Bytes) (m : Buf) (c : Cache) (miss : List Bytes),
+    (∀ k, (bgLocal s ks m c miss).1.get k =
+      if k ∈ ks ∧ (getLocal s k).isSome = true then getLocal s k else m.get k) ∧
+    (∀ k, k ∈ (bgLocal s ks m c miss).2.2 ↔ k ∈ miss ∨ (k ∈ ks ∧ getLocal s k = none))
+  | [], m, c, miss => by
+    unfold bgLocal
+    exact ⟨fun k => by simp, fun k => by simp⟩
+  | x :: xs, m, c, miss => by
+    unfold bgLocal
+    cases hg : getLocal s x with
+    | some v =>
+      simp only
+      obtain ⟨ih1, ih2⟩ := bgLocal_result s xs (m.put x v) (c.put x (some v)) miss
+      refine ⟨fun k => ?_, fun k => ?_⟩
+      · rw [ih1 k, Buf.get_put]
+        by_cases hkx : x = k
+        · subst hkx
+          simp [hg]
+        · have : (k ∈ x :: xs) ↔ k ∈ xs := by simp [Ne.symm hkx]
+          simp only [hkx, if_false, this]
+      · rw [ih2 k]
+        by_cases hkx : k = x
+        · subst hkx; simp [hg]
+        · simp [hkx]
+    | none =>
+      simp only
+      obtain ⟨ih1, ih2⟩ := bgLocal_result s xs m c (x :: miss)
+      refine ⟨fun k => ?_, fun k => ?_⟩
+      · rw [ih1 k]
+        by_cases hkx : k = x
+        · subst hkx; simp [hg]
+        · simp [hkx]
+      · rw [ih2 k]
+        by_cases hkx : k = x
+        · subst hkx; simp [hg]
+        · simp [hkx]
+
+theorem bgRemote_result (store : Buf) : ∀ (ks : List Bytes) (m : Buf) (c : Cache) (k : Bytes),
+    (bgRemote store ks m c).1.get k = if k ∈ ks ∧ (store.get k).isSome = true then store.get k else m.get k
+  | [], m, c, k => by unfold bgRemote; simp
+  | x :: xs, m, c, k => by
+    unfold bgRemote
+    cases hg : store.get x with
+    | some v =>
+      simp only
+      rw [bgRemote_result store xs (m.put x v) (c.put x (some v)) k, Buf.get_put]
+      by_cases hkx : x = k
+      · subst hkx; simp [hg]
+      · have : (k ∈ x :: xs) ↔ k ∈ xs := by simp [Ne.symm hkx]
+        simp only [hkx, if_false, this]
+    | none =>
+      simp only
+      rw [bgRemote_result store xs m (c.put x none) k]
+      by_cases hkx : k = x
+      · subst hkx; simp [hg]
+      · simp [hkx]
+
+theorem getLocal_some_view {s : PState} {k v : Bytes} (h : getLocal s k = some v) : view s k = some v := by
+  unfold getLocal at h; unfold view
+  cases hm : s.mbuf.get k with
+  | some w => simp [hm] at h; simp [h]
+  | none => simp only [hm] at h; simp only [orE_none]; rw [below_eq, h]; rfl
+
+/-- `BatchGet(ks)` returns, for every requested key, what a read of that key sees below the cache (mutable buffer,
+    flushing buffer, store), and nothing for keys that were not requested -/
+theorem batchGet_result (s : PState) (ks : List Bytes) (k : Bytes) :
+    (batchGet s ks).2.get k = if k ∈ ks then view s k else none := by
+  have hb : (batchGet s ks).2 = (bgRemote s.store (bgLocal s ks [] (s.cache.getD []) []).2.2
+      (bgLocal s ks [] (s.cache.getD []) []).1 (bgLocal s ks [] (s.cache.getD []) []).2.1).1 := by
+    unfold batchGet; rfl
+  obtain ⟨h1, h2⟩ := bgLocal_result s ks [] (s.cache.getD []) []
+  rw [hb, bgRemote_result, h1 k]
+  simp only [h2 k]
+  by_cases hk : k ∈ ks
+  · cases hg : getLocal s k with
+    | some v => simp [hk, hg, getLocal_some_view hg]
+    | none =>
+      obtain ⟨hm, hbl⟩ := getLocal_none hg
+      have hv : view s k = s.store.get k := by unfold view; rw [hm, hbl]; rfl
+      simp only [hk, hg, true_and, List.not_mem_nil, false_or, and_self, Option.isSome_none, Bool.false_eq_true,
+        and_false, if_false, Buf.get_nil, if_true, hv]
+      cases s.store.get k <;> simp
+  · simp [hk]
 
 theorem down_pairwise : ∀ n, (down n).Pairwise (· > ·) ∧ ∀ g ∈ down n, 1 ≤ g ∧ g ≤ n
   | 0 => ⟨List.Pairwise.nil, by simp [down]⟩
